@@ -351,8 +351,12 @@ bool RewindScript(InterpreterEnv& env)
 
 bool ContinueScript(InterpreterEnv& env)
 {
+    // running to completion: no step is going to be taken back, so the snapshots StepScript keeps for rewinding (a copy of
+    // both stacks for every operation, executed or not) are dropped as they come - a long script over a large stack would
+    // otherwise need gigabytes and end in std::bad_alloc
     while (!env.done) {
         if (!StepScript(env)) return false;
+        ClearHistory(env);
     }
     return true;
 }
